@@ -314,6 +314,11 @@ class TaskMappingSpec(native_v1_specs.MappingSpec):
             if next_task_name in traversed:
                 continue
 
+            # If the next task is not defined, then there is nothing further to traverse.
+            # The undefined task is reported by detect_undefined_tasks.
+            if not self.has_task(next_task_name):
+                continue
+
             for task in self.get_next_tasks(next_task_name):
                 q.put(task[0])
 
